@@ -70,39 +70,41 @@ Definition jvalue (n : jn) : result (list vres) :=
 (* a list that came out empty is dropped, otherwise wrapped *)
 Definition venvelope (r : list vres) : list vres := match r with [] => [] | _ => [VList r] end.
 
+(* one step from node [n]; [cont] evaluates the rest of the path on the selected nodes *)
+Definition jstep (c : comp) (n : jn) (cont : list jn -> result (list vres)) : result (list vres) :=
+  if (c_sep c =? SEP_CHILD)%N then
+    match n with
+    | JSeqN _ ms =>
+        (* the members labelled id, cut by the slice, in document order *)
+        let* sel := select jlabel c ms in cont (map snd sel)
+    | JRep _ _ reps =>
+        match reps with
+        | [] | [] :: _ => Ok []                    (* no members at all: nothing, the slice is not looked at *)
+        | rep0 :: _ =>
+            (* positions selected within ONE repetition, applied to every repetition: one
+               list per repetition (empty ones dropped), the whole in one envelope *)
+            let* sel := select jlabel c rep0 in
+            match sel with
+            | [] => Ok []
+            | _ =>
+                let* env := collect (fun rep => let* r := cont (pick (map fst sel) rep) in Ok (venvelope r)) reps in
+                Ok (venvelope env)
+            end
+        end
+    | _ => Err EQuery                              (* no 'members' *)
+    end
+  else if (c_sep c =? SEP_ATTRIB)%N then
+    match n with
+    | JRep _ (Some f) _ => let* sel := select jlabel c [JVal f] in cont (map snd sel)
+    | JVal (JV _ _ (a :: ats)) => let* sel := select jlabel c (map JVal (a :: ats)) in cont (map snd sel)
+    | _ => Err EQuery                              (* neither 'factor' nor 'attributes' *)
+    end
+  else Err EQuery.                                 (* descendant step: outside this reference *)
+
 Fixpoint jeval (cs : list comp) (n : jn) {struct cs} : result (list vres) :=
   match cs with
-  | [] => Err EIndex                                   (* path_components[0] of an empty path *)
-  | c :: rest =>
-      let cont (ns : list jn) : result (list vres) :=
-        match rest with [] => collect jvalue ns | _ => collect (jeval rest) ns end in
-      if (c_sep c =? SEP_CHILD)%N then
-        match n with
-        | JSeqN _ ms =>
-            (* the members labelled id, cut by the slice, in document order *)
-            let* sel := select jlabel c ms in cont (map snd sel)
-        | JRep _ _ reps =>
-            match reps with
-            | [] | [] :: _ => Ok []                    (* no members at all: nothing, the slice is not looked at *)
-            | rep0 :: _ =>
-                (* positions selected within ONE repetition, applied to every repetition *)
-                let* sel := select jlabel c rep0 in
-                match sel with
-                | [] => Ok []
-                | _ =>
-                    let* env := collect (fun rep => let* r := cont (pick (map fst sel) rep) in Ok (venvelope r)) reps in
-                    Ok (venvelope env)
-                end
-            end
-        | _ => Err EQuery                              (* no 'members' *)
-        end
-      else if (c_sep c =? SEP_ATTRIB)%N then
-        match n with
-        | JRep _ (Some f) _ => let* sel := select jlabel c [JVal f] in cont (map snd sel)
-        | JVal (JV _ _ (a :: ats)) => let* sel := select jlabel c (map JVal (a :: ats)) in cont (map snd sel)
-        | _ => Err EQuery                              (* neither 'factor' nor 'attributes' *)
-        end
-      else Err EQuery                                  (* descendant step: outside this reference *)
+  | [] => Err EIndex                               (* path_components[0] of an empty path *)
+  | c :: rest => jstep c n (match rest with [] => collect jvalue | _ => collect (jeval rest) end)
   end.
 
 (* the nested rendering of one subset is the member list of a virtual root *)
@@ -118,43 +120,43 @@ Context {R : Type} (leaf : qn -> result (list R)) (wrap : list R -> R).
 
 Definition envelope (r : list R) : list R := match r with [] => [] | _ => [wrap r] end.
 
+Definition ref_step (c : comp) (n : qn) (cont : list qn -> result (list R)) : result (list R) :=
+  if (c_sep c =? SEP_CHILD)%N then
+    match n with
+    | QSeq _ _ | QRoot _ =>
+        let* sel := select (label_of labels) c (members_of n) in cont (map snd sel)
+    | QRep _ _ nmem _ _ =>
+        let mem := members_of n in
+        match mem with
+        | [] => Ok []
+        | _ =>
+            let* sel := select (label_of labels) c (firstn nmem mem) in
+            match sel with
+            | [] => Ok []
+            | _ =>
+                let* env := collect (fun rep => let* r := cont (pick (map fst sel) rep) in Ok (envelope r))
+                                    (chunk (S (length mem)) nmem mem) in
+                Ok (envelope env)
+            end
+        end
+    | _ => Err EQuery
+    end
+  else if (c_sep c =? SEP_ATTRIB)%N then
+    match n with
+    | QRep true _ _ f _ => let* sel := select (label_of labels) c [QV f] in cont (map snd sel)
+    | QV i =>
+        match Query.attrs_of attrs i with
+        | [] => Err EQuery
+        | a :: ats => let* sel := select (label_of labels) c (map QV (a :: ats)) in cont (map snd sel)
+        end
+    | _ => Err EQuery
+    end
+  else Err EQuery.
+
 Fixpoint ref_gen (cs : list comp) (n : qn) {struct cs} : result (list R) :=
   match cs with
   | [] => Err EIndex
-  | c :: rest =>
-      let cont (ns : list qn) : result (list R) :=
-        match rest with [] => collect leaf ns | _ => collect (ref_gen rest) ns end in
-      if (c_sep c =? SEP_CHILD)%N then
-        match n with
-        | QSeq _ _ | QRoot _ =>
-            let* sel := select (label_of labels) c (members_of n) in cont (map snd sel)
-        | QRep _ _ nmem _ _ =>
-            let mem := members_of n in
-            match mem with
-            | [] => Ok []
-            | _ =>
-                let* sel := select (label_of labels) c (firstn nmem mem) in
-                match sel with
-                | [] => Ok []
-                | _ =>
-                    let* env := collect (fun rep => let* r := cont (pick (map fst sel) rep) in Ok (envelope r))
-                                        (chunk (S (length mem)) nmem mem) in
-                    Ok (envelope env)
-                end
-            end
-        | _ => Err EQuery
-        end
-      else if (c_sep c =? SEP_ATTRIB)%N then
-        match n with
-        | QRep true _ _ f _ => let* sel := select (label_of labels) c [QV f] in cont (map snd sel)
-        | QV i =>
-            match Query.attrs_of attrs i with
-            | [] => Err EQuery
-            | a :: ats => let* sel := select (label_of labels) c (map QV (a :: ats)) in cont (map snd sel)
-            end
-        | _ => Err EQuery
-        end
-      else Err EQuery
+  | c :: rest => ref_step c n (match rest with [] => collect leaf | _ => collect (ref_gen rest) end)
   end.
 
 End Tree.
